@@ -249,7 +249,10 @@ def run(ctx):
                        "for sizes up to 2^32-1 - accumulated size = their sum, Encode writes a well-formed header announcing exactly that payload (single "
                        "samples of 2^32-10 .. 2^32-8 bytes included); mdat boxes of 2^32-1, 2^32-2, ... bytes with an 8-byte header and 16-byte headers "
                        "on both sides of 2^32, decoded lazily from a position-synthesizing reader: Size / HeaderSize / PayloadAbsoluteOffset, Encode and "
-                       "EncodeSW = the original header, the last 3 payload bytes through ReadData" % (n + n // 4 + 1 + n // 2 + 1, exh))
+                       "EncodeSW = the original header, the last 3 payload bytes through ReadData; search also (reader not at 0): DecodeFile in both "
+                       "modes on a ReadSeeker positioned behind a preamble of 1 .. 70000 bytes gives the structure it gives at "
+                       "offset 0, and DecodeBox / DecodeBoxLazyMdat box by box with startPos = an offset in a bigger file "
+                       "(0, 4000, 2^20, 2^33) give the same box sequence" % (n + n // 4 + 1 + n // 2 + 1, exh))
 
 
 def hook_search(ctx, exe):
